@@ -40,6 +40,37 @@ Proof.
   intros p _ bs _. unfold rle_dec_fn. cbn [fst]. pose proof (rle_decode_cap bs (snd p)). lia.
 Qed.
 
+(* ---------------- varintRLEEncode(dst, values, count, NULL) ----------------
+   values: n uint64_t cells at src (shared); the bytes written stay inside
+   varintRLEMaxSize(count) (C03_rle_bound); result [bytes written] *)
+Definition rle_enc_fn (vs : list N) : list N * list N :=
+  (fst (rle_encode (map u64 vs)), [N.of_nat (length (fst (rle_encode (map u64 vs))))]).
+
+Theorem rle_encode_threads_safe (ps : list io) (m0 : mem) :
+  (forall p, In p ps -> 10 * N.of_nat (io_n p) + 9 < 18446744073709551616) ->
+  (forall i j pi pj, i <> j -> nth_error ps i = Some pi -> nth_error ps j = Some pj ->
+     forall l, in_range (io_dst pj) (N.to_nat (rle_max_size (N.of_nat (io_n pj)))) l ->
+       ~ in_range (io_dst pi) (N.to_nat (rle_max_size (N.of_nat (io_n pi)))) l /\
+       ~ in_range (io_src pi) (io_n pi) l) ->
+  forall sched,
+  let ths := map (fun p => prog1 (io_src p) (io_n p) (io_dst p) rle_enc_fn) ps in
+  ~ races (snd (crun sched (m0, ths))) /\
+  forall i p r, nth_error ps i = Some p ->
+    nth_error (snd (crun sched (m0, ths))) i = Some (Ret r) ->
+    let res := rle_enc_fn (peek m0 (io_src p) (io_n p)) in
+    r = snd res /\
+    forall j, (j < length (fst res))%nat ->
+      fst (crun sched (m0, ths)) (io_dst p + N.of_nat j) = nth j (fst res) 0.
+Proof.
+  intros V AP sched.
+  refine (family1_safe io io_src io_n io_dst
+            (fun p => N.to_nat (rle_max_size (N.of_nat (io_n p))))
+            (fun _ => rle_enc_fn) ps m0 _ AP sched).
+  intros p Hp bs Hl. unfold rle_enc_fn. cbn [fst].
+  pose proof (rle_bound (map u64 bs)) as H. rewrite map_length, Hl in H.
+  destruct (H (V p Hp)) as [H1 _]. lia.
+Qed.
+
 (* ---------------- varintDictDecodeInto(buffer, bufferLen, output, maxValues) ----------------
    the encoding (dictionary and indices): n byte cells at src (shared),
    bufferLen = n; output: at most maxValues uint64_t cells at dst;
